@@ -225,7 +225,7 @@ def vi_versions_agree(sx, shape, gamma, K):
         sx.prove(list(r1.state_value.state_list) == list(r2.state_value.state_list), 'same-state-list')
 
 
-def vi_undiscounted(sx, shape, version, K, extra_dead=False, undef='sym', dead_prob='1/2'):
+def vi_undiscounted(sx, shape, version, K, extra_dead=False, undef='sym', dead_prob='1/2', wide_dead=False):
     """gamma = 1, non-positive rewards, goal-reaching skeletons (+ optionally a state that cannot reach a goal; the placeholder
     reported there is symbolic or infinite; the state may be listed in the initial distribution with probability exactly 0)"""
     sh = PROPER[shape]
@@ -237,7 +237,16 @@ def vi_undiscounted(sx, shape, version, K, extra_dead=False, undef='sym', dead_p
         dp = F(dead_prob)
         s0 = {k: v * (1 - dp) for k, v in sh.s0.items()}
         s0[S] = dp
-        sh = Shape(S + 1, sh.A, sh.avail + [[0]], rows, absorb=sh.absorb, s0=s0, gamma=F(1), name=sh.name + '+dead')
+        avail = [list(a) for a in sh.avail] + [[0]]
+        nA = sh.A
+        if wide_dead:
+            # the never-terminating state has TWO available actions and lacks a third one that exists elsewhere (at state 0)
+            rows[(S, 1)] = {S: F(1)}
+            avail[S] = [0, 1]
+            rows[(0, nA)] = dict(rows[(0, sh.avail[0][0])])
+            avail[0] = avail[0] + [nA]
+            nA += 1
+        sh = Shape(S + 1, nA, avail, rows, absorb=sh.absorb, s0=s0, gamma=F(1), name=sh.name + '+dead')
     rew = sym_rewards(sx, sh, -1, 0)
     eps = sx.real('eps', 0, 1, lo_open=True)
     dummy = sx.real('undefined_value', -5, 5)
@@ -264,6 +273,13 @@ def vi_undiscounted(sx, shape, version, K, extra_dead=False, undef='sym', dead_p
                 # iterates decrease monotonically from 0 towards V*: never below it
                 sx.prove_le(Vs[s], v, f'value-not-below-optimal[{s}]', tol=F(1, 10**8))
                 sx.prove_le(v, 0, f'value-non-positive[{s}]')
+        # policy rows everywhere (also at states that carry the placeholder): a distribution over AVAILABLE actions only
+        for s in range(sh.S):
+            its = dict(res.policy.action_dist(s).items())
+            sx.prove_eq(ssum(its.values()), 1, f'policy-row-sums-to-1[{s}]')
+            for a in range(sh.A):
+                if a not in sh.avail[s]:
+                    sx.prove_eq(its.get(sh.alabels[a], 0), 0, f'unavailable-action-prob-0[{s},{a}]', tol=0)
         # expectation of the reported values over the initial distribution (states of probability 0 do not count, whatever they hold)
         sx.prove_eq(res.initial_value, ssum(sx.const(p) * res.state_value[s] for s, p in sh.s0.items() if p > 0), 'initial-value')
         sx.observe('V', [res.state_value[s] for s in range(sh.S)])
@@ -592,6 +608,7 @@ def jobs(tier):
             K = 4 if quick else 8
             yield ('vi_undiscounted', dict(shape=i, version=ver, K=K), o)
             yield ('vi_undiscounted', dict(shape=i, version=ver, K=K, extra_dead=True), o)
+            yield ('vi_undiscounted', dict(shape=i, version=ver, K=K, extra_dead=True, wide_dead=True), o)
             if i == 0 or not quick:
                 for un in ['-inf', 'inf']:
                     for dp in ['1/2', '0']:
